@@ -55,6 +55,10 @@ def run(ctx: Ctx):
     from .common import explicit_nan_criterion
 
     explicit_nan_criterion(ctx, "proportion-nan")
+    from .common import lazyproperty_call_form
+
+    # a base / margin attribute built by a property FACTORY shares its cache slot with its siblings (weighted <-> unweighted)
+    lazyproperty_call_form(ctx, "cache-key", shorts=("matrix/measure.py", "stripe/measure.py", "matrix/cubemeasure.py", "stripe/cubemeasure.py"))
 
 
 def table_proportions(ctx: Ctx):
